@@ -122,6 +122,7 @@ def handleEvent (st : DState) (w : World) (ev : Json) : DState × Json :=
   | "timeout" => fin (.timeout (getNatD ev "seq"))
   | "stray_ack" => fin (.strayAck (getStr ev "channel") (getNatD ev "seq") (getBool ev "success"))
   | "stray_timeout" => fin (.strayTimeout (getStr ev "channel") (getNatD ev "seq"))
+  | "reseq" => fin (.reseq (getNatD ev "next"))
   | "donate" =>
     match parseCoin ((ev.getObjVal? "coin").toOption.getD .null) with
     | .error e => bad s!"coin: {e}"
